@@ -1,0 +1,192 @@
+//go:build verif
+// +build verif
+
+// Package vhook provides named pause points which are only active when the
+// binary is built with the `verif` build tag. Without the tag every call is
+// an empty function.
+package vhook
+
+import (
+	"math/rand"
+	"runtime"
+	"sync"
+	"sync/atomic"
+	"time"
+)
+
+// Action describes what a goroutine does when it passes an armed point.
+type Action struct {
+	// Mode is one of "park", "sleep", "yield". Any other value only counts.
+	Mode string
+	// Skip is the number of passages to let through before acting.
+	Skip int
+	// Times is the number of passages to act on (0 means unlimited).
+	Times int
+	// Prob is the probability (0..1) of acting on a passage; 0 means always.
+	Prob float64
+	// SleepUs is the sleep duration in microseconds of the "sleep" mode; a
+	// value is drawn uniformly from [SleepUs/2, SleepUs].
+	SleepUs int
+	// Yields is the number of runtime.Gosched calls of the "yield" mode.
+	Yields int
+	// Seed seeds the PRNG deciding Prob and sleep durations.
+	Seed int64
+}
+
+type point struct {
+	hits   int64
+	acted  int64
+	parked int64
+
+	mu      sync.Mutex
+	armed   bool
+	act     Action
+	seen    int
+	done    int
+	rnd     *rand.Rand
+	release chan struct{}
+}
+
+var (
+	mu       sync.RWMutex
+	points   = make(map[string]*point)
+	anyArmed int32
+)
+
+func get(name string) *point {
+	mu.RLock()
+	p := points[name]
+	mu.RUnlock()
+	if p != nil {
+		return p
+	}
+	mu.Lock()
+	p = points[name]
+	if p == nil {
+		p = &point{}
+		points[name] = p
+	}
+	mu.Unlock()
+	return p
+}
+
+// At marks a named point in the code.
+func At(name string) {
+	p := get(name)
+	atomic.AddInt64(&p.hits, 1)
+	if atomic.LoadInt32(&anyArmed) == 0 {
+		return
+	}
+
+	p.mu.Lock()
+	if !p.armed {
+		p.mu.Unlock()
+		return
+	}
+	p.seen++
+	if p.seen <= p.act.Skip || (p.act.Times > 0 && p.done >= p.act.Times) {
+		p.mu.Unlock()
+		return
+	}
+	if p.act.Prob > 0 && p.rnd.Float64() >= p.act.Prob {
+		p.mu.Unlock()
+		return
+	}
+	p.done++
+	act := p.act
+	release := p.release
+	var sleep time.Duration
+	if act.Mode == "sleep" && act.SleepUs > 0 {
+		half := act.SleepUs / 2
+		sleep = time.Duration(half+p.rnd.Intn(act.SleepUs-half+1)) * time.Microsecond
+	}
+	p.mu.Unlock()
+
+	atomic.AddInt64(&p.acted, 1)
+	switch act.Mode {
+	case "park":
+		atomic.AddInt64(&p.parked, 1)
+		<-release
+		atomic.AddInt64(&p.parked, -1)
+	case "sleep":
+		time.Sleep(sleep)
+	case "yield":
+		n := act.Yields
+		if n <= 0 {
+			n = 1
+		}
+		for i := 0; i < n; i++ {
+			runtime.Gosched()
+		}
+	}
+}
+
+// Arm arms the named point with the given action.
+func Arm(name string, act Action) {
+	p := get(name)
+	p.mu.Lock()
+	if p.armed && p.release != nil {
+		close(p.release)
+	}
+	p.armed = true
+	p.act = act
+	p.seen, p.done = 0, 0
+	p.rnd = rand.New(rand.NewSource(act.Seed))
+	p.release = make(chan struct{})
+	p.mu.Unlock()
+	atomic.StoreInt32(&anyArmed, 1)
+}
+
+// Release disarms the named point and releases all goroutines parked at it.
+func Release(name string) {
+	p := get(name)
+	p.mu.Lock()
+	if p.armed {
+		p.armed = false
+		if p.release != nil {
+			close(p.release)
+			p.release = nil
+		}
+	}
+	p.mu.Unlock()
+}
+
+// ReleaseAll disarms every point.
+func ReleaseAll() {
+	mu.RLock()
+	names := make([]string, 0, len(points))
+	for name := range points {
+		names = append(names, name)
+	}
+	mu.RUnlock()
+	for _, name := range names {
+		Release(name)
+	}
+	atomic.StoreInt32(&anyArmed, 0)
+}
+
+// Parked returns the number of goroutines currently parked at the point.
+func Parked(name string) int64 {
+	return atomic.LoadInt64(&get(name).parked)
+}
+
+// Acted returns how many passages the point has acted on since creation.
+func Acted(name string) int64 {
+	return atomic.LoadInt64(&get(name).acted)
+}
+
+// Hits returns how many times the point has been passed.
+func Hits(name string) int64 {
+	return atomic.LoadInt64(&get(name).hits)
+}
+
+// Snapshot returns the hit counters of all points seen so far.
+func Snapshot() map[string]int64 {
+	mu.RLock()
+	defer mu.RUnlock()
+	res := make(map[string]int64, len(points))
+	for name, p := range points {
+		res[name] = atomic.LoadInt64(&p.hits)
+	}
+	return res
+}
